@@ -104,7 +104,10 @@ def gen_lp_cases(ctx, label, n, stab_bias=0.3, pc_bias=0.3, crit_names=None, n_c
                  force_twopl=None, shuffle_flags=True):
     rng = ctx.rng(label)
     for k in range(n):
-        ast = instgen.gen_ast(rng, maxS=maxS, maxP=maxP, maxL=maxL)
+        if k % 5 == 4:
+            ast = instgen.gen_tradeoff(rng)      # criteria pull in different directions on these
+        else:
+            ast = instgen.gen_ast(rng, maxS=maxS, maxP=maxP, maxL=maxL)
         twopl = rng.random() < 0.65 if force_twopl is None else force_twopl
         stab = twopl and rng.random() < stab_bias
         pc = rng.random() < pc_bias
